@@ -25,3 +25,22 @@ void h_setup_limit(void)
   V_ASSERT(!databytes || bytestooverflow == databytes + 1u, "C07: supporting");
   V_ASSERT(!databytes || bytestooverflow != 0, "C07: a configured limit can never turn into 'no limit' by wrap-around");
 }
+
+/* ---- bmfcheck: the bad-sender list is consulted with the whole address and with @domain (C08) ---- */
+#ifdef P_BMF
+static char ab[16]; int g_np, g_hit[2]; char *g_pp[2]; int g_pl[2]; unsigned g_at;
+char *constmap(struct constmap *cm, char *s, int len) { V_ASSERT(cm == &mapbmf && g_np < 2, "C08: supporting"); g_pp[g_np] = s; g_pl[g_np] = len; g_hit[g_np] = ND_BOOL(); return g_hit[g_np++] ? "x" : 0; }
+unsigned int byte_rchr(char *s, unsigned int n, int c) { V_ASSERT(s == ab && n == addr.len && c == '@', "C08: supporting"); return g_at; }   /* contract: last @ or n */
+void h_bmf(void)
+{
+  int r;
+  addr.s = ab; addr.len = 1 + ND_UINT() % 15; addr.a = 16; bmfok = ND_BOOL(); g_np = 0; g_at = ND_UINT(); V_ASSUME(g_at <= addr.len);
+  r = bmfcheck();
+  if (!bmfok) { V_ASSERT(r == 0 && g_np == 0, "C08: without a badmailfrom file no sender is refused"); return; }
+  V_ASSERT(g_np >= 1 && g_pp[0] == ab && g_pl[0] == (int)addr.len - 1, "C08: the bad-sender list is consulted with the whole envelope sender");
+  if (g_hit[0]) V_ASSERT(r == 1 && g_np == 1, "C08: a listed sender address is refused");
+  else if (g_at < addr.len) { V_ASSERT(g_np == 2 && g_pp[1] == ab + g_at && g_pl[1] == (int)(addr.len - g_at - 1), "C08: and with @domain of the sender"); V_ASSERT(r == g_hit[1], "C08: a sender is on the bad-sender list exactly if its address or its @domain is listed"); }
+  else V_ASSERT(r == 0 && g_np == 1, "C08: supporting: no domain part");
+  V_COVER(r == 1 && g_np == 2);
+}
+#endif
